@@ -804,7 +804,10 @@ func (e *Engine) typeAssert(st *State, x *ssa.TypeAssert, in ssa.Instruction) {
 
 // ---- maps (concrete-comparable keys, or symbolic scalar/string keys via ite) ----
 
+// mapData returns the map's contents; every use counts as a read of the whole map for the
+// footprint/lock-set check (Go maps are unsafe for any concurrent use that includes a write).
 func (e *Engine) mapData(st *State, m MapV) *MapData {
+	e.record(st, m.obj, e.c64(0), 1, false)
 	return e.cells(st, m.obj)[0].(*MapData)
 }
 
@@ -848,6 +851,7 @@ func (e *Engine) mapUpdate(st *State, x *ssa.MapUpdate, in ssa.Instruction) {
 }
 
 func (e *Engine) mapSet(st *State, m MapV, key, val Value) {
+	e.record(st, m.obj, e.c64(0), 1, true)
 	md := e.mapData(st, m)
 	nd := &MapData{entries: append([]MapEntry(nil), md.entries...)}
 	for i, en := range nd.entries {
@@ -869,6 +873,7 @@ func (e *Engine) mapDelete(st *State, m MapV, key Value) {
 	if m.obj == nil {
 		return
 	}
+	e.record(st, m.obj, e.c64(0), 1, true)
 	md := e.mapData(st, m)
 	nd := &MapData{}
 	for _, en := range md.entries {
